@@ -395,7 +395,10 @@ class FITSWCSCorrector(WCSCorrector):
         """
         wcs = self._wcs
         orig_wcs = wcs.deepcopy()
-        if ref_tpwcs is None:
+        if ref_tpwcs is None or ref_tpwcs is self:
+            # (when this corrector itself is given as the reference tangent
+            # plane, use a snapshot of it: its WCS is modified below while
+            # the reference plane is still needed as it was)
             ref_tpwcs = FITSWCSCorrector(wcs.deepcopy())
 
         naxis1, naxis2 = wcs.pixel_shape
